@@ -358,6 +358,12 @@ func (x *Exec) visitInstr(fr *frame, instr ssa.Instruction) continuation {
 		fr.env[instr] = x.next(instr, fr.get(instr.Iter).(*rangeIter))
 
 	case *ssa.FieldAddr:
+		if sp, ok := fr.get(instr.X).(*SymPtr); ok {
+			st := sp.et.Underlying().(*types.Struct)
+			fr.env[instr] = &SymPtr{base: sp.base, idx: sp.idx, et: st.Field(instr.Field).Type(),
+				path: append(append([]int(nil), sp.path...), instr.Field)}
+			break
+		}
 		p := fr.get(instr.X).(*Value)
 		if p == nil {
 			x.tpanic("invalid memory address or nil pointer dereference (field of nil) in " + fr.where(instr))
@@ -628,6 +634,16 @@ type SymPtr struct {
 	base []Value
 	idx  *Term // width 64
 	et   types.Type
+	path []int // field path inside the (struct) element; et is the type of the addressed field
+}
+
+// cell returns the address of the addressed field of element i.
+func (a *SymPtr) cell(i int) *Value {
+	p := &a.base[i]
+	for _, f := range a.path {
+		p = &(*p).(Struct)[f]
+	}
+	return p
 }
 
 // load returns a copy of the value stored at addr.
@@ -642,7 +658,14 @@ func (x *Exec) load(t types.Type, addr Value) Value {
 		}
 		return copyVal(*a)
 	case *SymPtr:
-		return x.selectElem(a.base, a.idx, a.et)
+		if len(a.path) == 0 {
+			return x.selectElem(a.base, a.idx, a.et)
+		}
+		cells := make([]Value, len(a.base))
+		for i := range cells {
+			cells[i] = *a.cell(i)
+		}
+		return x.selectElem(cells, a.idx, a.et)
 	}
 	panic(fmt.Sprintf("load: bad address %T", addr))
 }
@@ -651,6 +674,9 @@ func (x *Exec) load(t types.Type, addr Value) Value {
 func (x *Exec) selectElem(base []Value, idx *Term, et types.Type) Value {
 	w, _, isInt := intInfo(et)
 	if !isInt && !isBoolT(et) {
+		if k, ok := x.selectByClass(base, idx); ok {
+			return copyVal(base[k])
+		}
 		k := x.concretize(idx, "index of non-scalar element")
 		return copyVal(base[k])
 	}
@@ -688,7 +714,7 @@ func (x *Exec) storeAt(t types.Type, addr Value, v Value) {
 		w, _, isInt := intInfo(a.et)
 		if !isInt && !isBoolT(a.et) {
 			k := x.concretize(a.idx, "store index of non-scalar element")
-			x.store(t, &a.base[k], v)
+			x.store(t, a.cell(int(k)), v)
 			return
 		}
 		if isBoolT(a.et) {
@@ -697,7 +723,8 @@ func (x *Exec) storeAt(t types.Type, addr Value, v Value) {
 		nv := x.toTerm(v, w)
 		for i := range a.base {
 			c := x.st.Eq(a.idx, x.st.Const(a.idx.w, uint64(i)))
-			x.write(&a.base[i], fromTerm(x.st.Ite(c, nv, x.toTerm(a.base[i], w))), a.et)
+			cell := a.cell(i)
+			x.write(cell, fromTerm(x.st.Ite(c, nv, x.toTerm(*cell, w))), a.et)
 		}
 	default:
 		panic(fmt.Sprintf("store: bad address %T", addr))
@@ -803,6 +830,10 @@ func (x *Exec) indexAddr(fr *frame, instr *ssa.IndexAddr, xv, idx Value) Value {
 		if len(base) <= iteIndexLimit {
 			_, _, isInt := intInfo(et)
 			if isInt || isBoolT(et) {
+				return &SymPtr{base: base, idx: i, et: et}
+			}
+			if _, isStruct := et.Underlying().(*types.Struct); isStruct {
+				// element address only used through FieldAddr / whole-element load (which concretises)
 				return &SymPtr{base: base, idx: i, et: et}
 			}
 		}
